@@ -41,5 +41,29 @@ __CPROVER_ensures((self->disc_format_ == Format_DFS || self->disc_format_ == For
 __CPROVER_ensures(self->disc_format_ == Format_WDFS ==>
                   self->total_sectors_ == ((unsigned)metadata->d[7] | (((unsigned)metadata->d[6] & 7u) << 8)));
 
+/* ---- CatalogFragment::valid, header part.  The entry list ends on an entry boundary inside the sector (at most 31 entries);
+   a catalogue that shares the volume with the data (Acorn, Watford, HDFS) must describe more sectors than the catalogue
+   itself takes; an Opus DDOS volume (catalogue in track 0, data elsewhere) is at least one track = 18 sectors ("The minimum
+   size of a volume is 1 track", dfs_catalog.cc) -- so a one-track volume IS valid.  Every refusal sets the error text. ---- */
+static unsigned g_errors;
+static void error_set(void) { if (g_errors < 1000) g_errors++; }
+#include "catalog_sectors_for_format.inc"
+#include "data_sectors_reserved_for_catalog.inc"
+#include "CatalogFragment_valid_head.inc"
+static sector_count_type catalog_sectors_for_format(int f)
+__CPROVER_assigns() __CPROVER_ensures(__CPROVER_return_value == (f == Format_WDFS ? 4u : 2u));
+static sector_count_type data_sectors_reserved_for_catalog(int f)
+__CPROVER_assigns() __CPROVER_ensures(__CPROVER_return_value == (f == Format_OpusDDOS ? 0u : f == Format_WDFS ? 4u : 2u));
+#define HEAD_OK_(self) ((self)->position_of_last_catalog_entry_ % 8 == 0 && (self)->position_of_last_catalog_entry_ <= 31 * 8 && \
+                        ((self)->disc_format_ == Format_OpusDDOS ? (self)->total_sectors_ >= 18 \
+                                                                 : (self)->total_sectors_ > ((self)->disc_format_ == Format_WDFS ? 4u : 2u)))
+static bool CatalogFragment_valid_head(const struct CatalogFragmentM *self, _Bool *go_on)
+__CPROVER_requires(__CPROVER_is_fresh(self, sizeof(*self)) && __CPROVER_is_fresh(go_on, sizeof(*go_on)) && !*go_on && g_errors == 0)
+__CPROVER_requires(self->disc_format_ >= Format_HDFS && self->disc_format_ <= Format_OpusDDOS)
+__CPROVER_assigns(*go_on, g_errors)
+__CPROVER_ensures(*go_on == HEAD_OK_(self))
+__CPROVER_ensures(!*go_on ==> (!__CPROVER_return_value && g_errors == 1))
+__CPROVER_ensures(*go_on ==> g_errors == 0);
+void h_valid_head(void) { const struct CatalogFragmentM *f; _Bool *g; g_errors = 0; CatalogFragment_valid_head(f, g); }
 void h_title(void) { const SectorBuffer *a, *b; g_k = nondet_size_t(); __CPROVER_assume(g_k < 12); convert_title(a, b); }
 void h_fragment(void) { struct CatalogFragmentM *f; const SectorBuffer *a, *b; CatalogFragment_ctor(f, a, b); }
